@@ -258,7 +258,7 @@ pub fn run(ctx: &Ctx) -> Report {
         }
     });
     rep.merge(r);
-    if !ctx.miri && ctx.only.is_none() {
+    if ctx.strict() {
         rep.require("err_packets_compared", 1000);
         rep.require("code_kind_round_trips", 800);
         rep.require("independent_sqlstate_facts_checked", 40);
